@@ -12,6 +12,7 @@ import OFV.Model.C11
 import OFV.Proofs.C11
 import OFV.Proofs.C11Num
 import OFV.Proofs.C11Real
+import OFV.Proofs.C11Double
 import OFV.Proofs.C11Layers
 import OFV.Proofs.C11Step
 import OFV.Proofs.C11Sweep
@@ -393,6 +394,16 @@ unitary — `phase = i`, `cos = 3/5`, `sin = 4/5` (what the code before 7be94873
 parts were below the tolerance although their ratio was not real) -/
 theorem test_real_form_needs_real_phase : ¬ (assemble false true (3/5) (4/5) ⟨0, 1⟩).Unitary := by
   unfold G2.Unitary; decide +kernel
+
+/-- **`double_givens_rotate(W, G, i, j, which='col')` preserves the first canonical constraint.**  For every `m × 2N` matrix
+and every column-isometric `G` (in particular every `G` returned by `givens_matrix_elements` in the exact regime,
+`givensElems_colIsometry`) the rotation of columns `i, j` by `G` and of columns `N+i, N+j` by `conj G` leaves all inner
+products of rows unchanged: `W W† = W₁W₁† + W₂W₂†` is invariant under each double rotation of
+`fermionic_gaussian_decomposition` (a step of the open Gaussian reconstruction statement). -/
+theorem double_rotation_preserves_row_gram (M : Mat) (m N : Nat) (hM : Rect M m (2 * N)) (G : G2) (hG : G.ColIsometry)
+    (i j : Nat) (hij : i ≠ j) (hi : i < N) (hj : j < N) :
+    Rect (doubleRotateCols M G N i j) m (2 * N) ∧ SameGram M (doubleRotateCols M G N i j) m (2 * N) :=
+  doubleRotateCols_gram hM hG i j hij hi hj
 
 /-- signed zero matters: with `a = 0`, complex `b` and `which='right'` the Model yields `G₁₁ = -0.0` and
 `e^{iφ} = -1`; with `+0.0` (`e^{iφ} = 1`) the rebuilt rotation would differ from `G` in entry `[0,1]` -/
